@@ -464,14 +464,30 @@ def cross_packages(sc, quick):
         defs.append({"kind": "protocol", "name": "UProtocol", "steps": steps})
         return defs
 
+    def lib_protocol(tag):
+        # a protocol of the library itself: its steps hold inline unions that no definition of the library uses
+        # (the importing package never opens this protocol, but its generated code must still be importable)
+        U = lambda *cases: ("union", False, [(None, c) for c in cases])
+        return {"kind": "protocol", "name": "XProtocol" + tag, "steps": [
+            ("u1", U(N("XRec"), P("float64")), False), ("u2", ("union", True, [(None, N("XEnum")), (None, P("string"))]), True),
+            ("u3", ("vec", U(P("uint8"), N("XFlags")), None), False), ("u4", ("map", P("string"), U(N("XRec"), N("XEnum"))), True),
+            ("u5", ("union", False, [("tA" + tag, P("bool")), ("tB" + tag, N("XVec"))]), True), ("plain", N("XRec"), False)]}
+
+    deep = modelgen.Package("CrossDeep")
+    deep.defs = [{"kind": "record", "name": "XRec", "tparams": [], "fields": [("a", P("int32"))]},
+                 {"kind": "enum", "name": "XEnum", "flags": False, "base": None, "auto": True, "values": [("one", 0), ("two", 1)]},
+                 {"kind": "enum", "name": "XFlags", "flags": True, "base": None, "auto": True, "values": [("fa", 1), ("fb", 2)]},
+                 {"kind": "alias", "name": "XVec", "tparams": [], "type": ("vec", P("float32"), None)},
+                 lib_protocol("Deep")]
     imp = modelgen.Package("CrossLib")
-    imp.defs = lib_defs()
+    imp.imports.append(deep)
+    imp.defs = lib_defs() + [lib_protocol("Lib"), {"kind": "alias", "name": "XDeepRec", "tparams": [], "type": ("named", "CrossDeep.XRec", [])}]
     pkg = modelgen.Package("CrossApp")
     pkg.imports.append(imp)
     pkg.defs = uses("CrossLib.")
     yield Job("cross:imported", sc.path("cross-imported"), pkg=pkg, manifest_extra=OPTION_SETS[2][1], compile_cpp=True, ndjson=True, namespace="CrossApp")
     one = modelgen.Package("CrossOne")
-    one.defs = lib_defs() + uses("")
+    one.defs = lib_defs() + [lib_protocol("One")] + uses("")
     yield Job("cross:same-namespace", sc.path("cross-one"), pkg=one, manifest_extra=OPTION_SETS[2][1], compile_cpp=not quick, ndjson=True, namespace="CrossOne")
 
 
@@ -665,7 +681,7 @@ def judge(report, j, res, seed):
     if py is not None:
         report.count("python.checked")
         if py["rc"] != 0:
-            report.violation(f"python:{_sig(py['out'])}" + (":" + j.kind if j.kind.startswith(("names:namespace", "init:", "witness:derived-names")) else ""), dict(replay, output=py["out"]), "the generated Python package does not compile / import")
+            report.violation(f"python:{_sig(py['out'])}" + (":" + j.kind if j.kind.startswith(("names:namespace", "init:", "witness:derived-names", "cross:")) else ""), dict(replay, output=py["out"]), "the generated Python package does not compile / import")
     cpp = res.get("cpp")
     if cpp is not None:
         report.count("cpp.compiled")
@@ -674,7 +690,7 @@ def judge(report, j, res, seed):
             # the first error is about a sequence of bool (std::vector<bool> has no data() and hands out proxies, not bool&)
             report.violation("cpp:vector-of-bool", dict(replay, output=cpp["log"]), "the generated C++ does not compile as C++17")
         elif not cpp["ok"]:
-            report.violation(f"cpp:{_sig(cpp['log'])}" + (":" + j.kind if j.kind.startswith(("names:namespace", "init:", "witness:derived-names")) else ""), dict(replay, output=cpp["log"]), "the generated C++ does not compile as C++17")
+            report.violation(f"cpp:{_sig(cpp['log'])}" + (":" + j.kind if j.kind.startswith(("names:namespace", "init:", "witness:derived-names", "cross:")) else ""), dict(replay, output=cpp["log"]), "the generated C++ does not compile as C++17")
 
 
 def _sig(text):
